@@ -2,7 +2,7 @@
 C15 — Effect analysis reports exactly the effects a program contains.
 -/
 import Essential.Lemmas.Asm
-import Essential.Props.C13
+import Essential.Lemmas.Codec
 
 namespace Essential.C15
 open Essential Spec
@@ -50,7 +50,7 @@ theorem bytes_contains_any_spec (E : Nat) (ops : List Op) :
 over the parsed ops -/
 theorem bytes_contains_any_parsed (E : Nat) (bs : List Nat) (hb : AllBytes bs) (ops : List Op)
     (h : decode bs = .ok ops) : bytesContainsAny E bs = ops.any (opHasEffect E) := by
-  have := Essential.C13.encode_decode bs hb ops h
+  have := Essential.Codec.encode_decode bs hb ops h
   rw [← this.1, bytes_contains_any_spec]
 
 /-- the union of the effect flags of all ops -/
